@@ -404,7 +404,7 @@ package sender
 //@ ghost csReader: int
 //@ func (*sender.scopedWalker).walkFn
 //@   at[C12,C15] rsyncchecksum.ReaderChecksum: set ghost.csReader = data(arg0)
-//@   at[C12,C15] (sender.FileSource).Open: assert [checksum-of-the-listed-file] arg1 == path
+//@   at[C12,C15] (sender.FileSource).Open: assert [checksum-of-the-listed-file] arg0 == path
 //@   at[C12,C15] (*rsyncwire.Buffer).WriteString@3: assert [checksum-is-the-md4-of-the-content] modeIsRegular(infoMode(data(info))) ==> arg1 == str(checksum) && bid(checksum) == md4Of(accApp(accEmpty, readerContent(ghost.csReader)))
 
 // ---------------------------------------------------------------- C06: names handed to os.Root by the sender
@@ -420,5 +420,11 @@ package sender
 //@   requires[C06] [name-without-trailing-slash] !hasSuffix(name, "/")
 //@ func (*sender.osRootSource).Readlink
 //@   requires[C06] [name-without-trailing-slash] !hasSuffix(name, "/")
+// (untagged: the field invariant on sender.file.path is checked wherever a file
+// value is stored, in every check that runs these functions)
 //@ func (*sender.scopedWalker).walkFn
-//@   requires[C06] [walked-name-without-trailing-slash] !hasSuffix(path, "/")
+//@   requires [walked-name-without-trailing-slash] !hasSuffix(path, "/")
+//@ func (*sender.Transfer).sendFile
+//@   requires [listed-path-without-trailing-slash] !hasSuffix(fl.path, "/")
+//@ func (*sender.Transfer).hashSearch
+//@   requires [listed-path-without-trailing-slash] !hasSuffix(fl.path, "/")
